@@ -234,6 +234,15 @@ def gen_history(rng, nops):
                 emit("UD %d %d" % (h, uid[0]), dels=[old])
             else:
                 emit("SS %d %d %d" % (h, uid[0], rng.randrange(2)), dels=[old])
+        elif r < 0.93:
+            # deep copy with the DEFAULT shallow copy: every node of the script carries userdata without a known serializer, so the
+            # copy must fail (-1), build nothing, destroy nothing and leave the source untouched (a half-built copy must be released)
+            hs = alive_handles()
+            h2 = free_handle()
+            if not hs or h2 is None:
+                continue
+            h = rng.choice(hs)
+            emit("DCOPY %d %d 0" % (h, h2), failcopy=True, dels=[])
         elif r < 0.96:
             hs = alive_handles()
             h2 = free_handle()
@@ -318,6 +327,10 @@ def shard_fn(shard, nshards, seed, tier, exe, nhist):
             if not key and e.get("copy"):
                 if int(ln.split()[1]) != 0:
                     key, what = "copy-failed", "deep copy returned %s" % ln.split()[1]
+            if not key and e.get("failcopy"):
+                if int(ln.split()[1]) != -1:
+                    key, what = "copy-of-uncopyable-userdata-succeeded", "deep copy with the default shallow copy of nodes carrying foreign userdata returned %s" % ln.split()[1]
+                sh.count("op.DCOPY_failing")
             if key:
                 sh.violation("C05/" + key, what + " (command #%d)" % ci, dict(rep, failing_command=ci))
                 break
